@@ -251,6 +251,9 @@ def run(ctx: Ctx) -> None:
 
     if isinstance(ctx, Alias):
         return
+    from . import c06
+
+    c06.run(Alias(ctx, "C07.R10", "a reader parked behind an unfinished pipelined request is released on the recycle AND on the close path of _maybe_recycle, so the connection handler can finish (C06.R3)", only={"C06.R3"}))
     c16.run(Alias(ctx, "C07.R9", "both workers realise the same connection-handler, idle-timer and single-task skeletons (C16.R2 on TCPServer.*, C16.R3 on the SingleTask helpers: cancel/replace under the lock)", only={"C16.R2", "C16.R3"}, where=["TCPServer.", "SingleTask."]))
     ctx.assume("not decided: expiry instants, that a busy connection is never closed by the timer under every interleaving, virtual-time behaviour; C07.R2 (stream-generated error responses end the stream) is decided by the typestate analysis reported under this property")
     from . import typestate_rules
